@@ -13,7 +13,8 @@ import (
 //
 // Documents: objects with 2..12 keys drawn from a pool in which byte order, UTF-16 order,
 // case-insensitive order and length-first order all differ (ASCII upper/lower/digits/signs,
-// prefixes, the empty key, 2-, 3- and 4-byte UTF-8), nested up to depth 3, every leaf a
+// prefixes, the empty key, 2-, 3- and 4-byte UTF-8; 30% of the key sets with 2..4 long names that
+// agree in their first 7, 8, 9 or more bytes, see c07LongFamilies in b8_helpers.go), nested up to depth 3, every leaf a
 // different number so that a sequence shows its order. Paths: 1..4 steps over wildcard,
 // filter, recursive descent, multi-name and union steps (at least one of the first three).
 // Every document is built 3..5 times as equal maps filled in other orders / sizes, the path
@@ -77,6 +78,11 @@ func (g *c07Gen) keyset(n int) []string {
 	ks := make([]string, n)
 	for i := 0; i < n; i++ {
 		ks[i] = c07Keys[idx[i]]
+	}
+	// long names with a common prefix (30% of the key sets): 2..4 names of one family replace
+	// as many of the drawn keys (the families and the short pool are disjoint)
+	if n >= 2 && r.Chance(30) {
+		c07LongInto(ks, r)
 	}
 	return ks
 }
@@ -514,6 +520,34 @@ func c07KeyClasses(ks []string) []string {
 	return out
 }
 
+// c07LongClasses: tags for the key sets of ALL objects of the document (long common prefixes).
+func c07LongClasses(doc interface{}) []string {
+	seen := map[string]bool{}
+	var walk func(v interface{})
+	walk = func(v interface{}) {
+		switch t := v.(type) {
+		case map[string]interface{}:
+			for _, c := range c07PrefixClasses(sortedKeys(t)) {
+				seen[c] = true
+			}
+			for _, x := range t {
+				walk(x)
+			}
+		case []interface{}:
+			for _, x := range t {
+				walk(x)
+			}
+		}
+	}
+	walk(doc)
+	var out []string
+	for c := range seen {
+		out = append(out, c)
+	}
+	sort.Strings(out)
+	return out
+}
+
 // ---------- shared containers, keys renamed in place ----------
 
 // c07Ident: the identity of a container object (what a pointer-keyed cache or visited set
@@ -723,7 +757,11 @@ func c07RenameInPlace(doc interface{}, r *Rng) []string {
 			ks := sortedKeys(m)
 			k := ks[r.Intn(len(ks))]
 			var free []string
-			for _, c := range c07Keys {
+			pool := c07Keys
+			if fam := c07LongFamilyOf(ks); fam != nil && r.Chance(60) {
+				pool = fam // the new name shares a long prefix with a name the map has
+			}
+			for _, c := range pool {
 				if _, in := m[c]; !in {
 					free = append(free, c)
 				}
@@ -987,6 +1025,7 @@ func (c07) Exec(seed int64, i int, tier string) Record {
 	rec.Tags = append(rec.Tags, fmt.Sprintf("keys:%02d", len(rootKeys)))
 	cls := c07KeyClasses(rootKeys)
 	rec.Tags = append(rec.Tags, cls...)
+	rec.Tags = append(rec.Tags, c07LongClasses(doc)...)
 	if acc {
 		rec.Tags = append(rec.Tags, "mode:accessor")
 	}
